@@ -1,7 +1,7 @@
 (* C04 — handles are independent and memory-safe across threads, under every schedule.   (partial: see below) *)
 From Coq Require Import Lia Arith List Bool String.
 From LSConc Require Import Clock Mach Inv Top.
-From LS Require Import Base Cmd Impl Proto.
+From LS Require Import Base Cmd Impl Proto ProtoOps Compose Programs.
 From LSGen Require Import GenSrc.
 Import ListNotations.
 
@@ -59,9 +59,44 @@ Theorem C04_ensure_modifiable_respects_protocol : forall r g,
   okc (ensure_modifiable r) g (fun p g' => settled g' /\ holds g' (fst p) /\ (snd p = true -> holds_excl g' (fst p))).
 Proof. exact ok_ensure_modifiable. Qed.
 
+(* every other modelled reader / mutator (as_bytes, push_str, pop, truncate, remove, insert_str, retain, clear, shrink_to,
+   reserve, clone-then-drop): from a held handle and nothing owed, only protocol-respecting events, ending with the
+   result handle held and nothing owed *)
+Theorem C04_every_operation_respects_protocol : forall o r g,
+  holds g r -> settled g -> okc (happly o r) g (fun r' g' => settled g' /\ holds g' r').
+Proof. exact ok_happly. Qed.
+
+(* ---- composition: the interleaving semantics of thread programs over the protocol machine (Compose.v).  One event of a
+   well-typed thread keeps the configuration well typed (machine invariant, ghost = machine-local state, continuation
+   typed); so does starting the next operation, spawning and joining. ---- *)
+Theorem C04_typed_step : forall b0 kof cf cf', WT b0 kof cf -> cstep b0 cf cf' -> WT b0 kof cf'.
+Proof. exact typed_step. Qed.
+(* hence from a well-typed configuration no interleaving reaches a configuration in which any thread could take a step
+   that is a data race, a use after free or a double free *)
+Theorem C04_typed_safe : forall b0 kof cf cf' t a e,
+  WT b0 kof cf -> csteps b0 cf cf' -> Mach.step (ms cf') t a <> Mach.Err e.
+Proof. exact typed_safe. Qed.
+(* and every started thread whose continuation begins with an event can take it: the protocol precondition of the
+   corresponding machine action (holds a reference / exclusive / must-free after the fence) holds *)
+Theorem C04_typed_progress : forall b0 kof cf t,
+  WT b0 kof cf -> (t < length (tc cf))%nat -> Mach.started (Mach.getth (ms cf) t) = true -> is_event (cur (gettc b0 cf t)) ->
+  exists s' c' g', estep b0 t (ms cf) (cur (gettc b0 cf t)) (gh (gettc b0 cf t)) s' c' g'.
+Proof. exact typed_progress. Qed.
+
+(* ---- the programs the property quantifies over, for EVERY number of threads and EVERY operation sequence: thread 0
+   clones its handle once per child, moves a clone into each spawned thread; every thread then runs its own sequence of
+   reads / mutations on its handle and drops it; thread 0 joins.  The initial configuration is well typed, so every
+   reachable configuration is well typed and cannot make an erroneous step. ---- *)
+Theorem C04_shared_handles_typed : forall b0 l0 n opsf, WT b0 (fun _ => 1%nat) (cfg0 b0 l0 n opsf).
+Proof. exact shared_handles_typed. Qed.
+Theorem C04_shared_handles_safe : forall b0 l0 n opsf cf,
+  csteps b0 (cfg0 b0 l0 n opsf) cf ->
+  WT b0 (fun _ => 1%nat) cf /\ forall t a e, Mach.step (ms cf) t a <> Mach.Err e.
+Proof. exact shared_handles_safe. Qed.
+
 (* non-vacuity: two threads, the stale-read schedule the design worries about *)
 Example C04_example :
-  (exists s, Mach.run (Mach.init 2) [(0,AClone);(0,ASpawn 1 1);(1,ARead);(1,ARelease);(0,AProbe 0);(0,AWrite);(0,ARelease);(0,AFree)]%nat = Mach.Ok s /\ Mach.live s = false)
+  (exists s, Mach.run (Mach.init 2) [(0,AClone);(0,ASpawn 1 1);(1,ARead);(1,ARelease);(0,AProbe 0);(0,AWrite);(0,ARelease);(0,Mach.AFence);(0,AReadM);(0,AFree)]%nat = Mach.Ok s /\ Mach.live s = false)
   /\ (exists s, Mach.run (Mach.init 2) [(0,AClone);(0,ASpawn 1 1);(1,ARelease);(0,AProbe 1)]%nat = Mach.Ok s /\ Mach.excl (Mach.getth s 0) = false).
 Proof. split; eexists; vm_compute; split; reflexivity. Qed.
 
@@ -72,4 +107,10 @@ Print Assumptions C04_clone_respects_protocol.
 Print Assumptions C04_drop_respects_protocol.
 Print Assumptions C04_reserve_respects_protocol.
 Print Assumptions C04_ensure_modifiable_respects_protocol.
+Print Assumptions C04_every_operation_respects_protocol.
+Print Assumptions C04_typed_step.
+Print Assumptions C04_typed_safe.
+Print Assumptions C04_typed_progress.
+Print Assumptions C04_shared_handles_typed.
+Print Assumptions C04_shared_handles_safe.
 Print Assumptions C04_example.
